@@ -107,7 +107,8 @@ theorem dependencies_perm :
 /-- **Frame facts** (regenerated from the AST of the source on every run): no state is
 shared between files through class attributes, module-level objects or globals. -/
 theorem no_shared_state :
-    Generated.sharedMutableClassAttrs = [] ∧ Generated.moduleLevelWrites = [] ∧ Generated.globalDecls = [] := by
+    Generated.sharedMutableClassAttrs = [] ∧ Generated.moduleLevelWrites = [] ∧ Generated.globalDecls = [] ∧
+    Generated.moduleLevelIterators = [] ∧ Generated.registryInstanceWrites = [] := by
   decide
 
 /-- No check runs on start or on end (the engine model has no such phases). -/
